@@ -8,6 +8,6 @@ def _j(fn, what, **kw):
 JOBS = [
  _j("scpiParser_parseProgramData", "one data item: alternative chain, suffix merge, result == bytes consumed (so list items are delivered whole)", replace=_LEX, timeout=900, cost=20),
  _j("scpiParser_parseAllProgramData", "comma-separated list with loop contract: extent == displacement, parameter count", replace=["scpiParser_parseProgramData", "scpiLex_Comma"], need_classes=["loop_invariant", "loop_decreases"], timeout=1500, cost=30),
- _j("scpiParser_detectProgramMessageUnit", "unit = header [ws data-list] (; | NL | end); progress >= 1 byte; tokens inside the unit; termination kind", props=["C13", "C05", "C08", "C01", "C02"],
+ _j("scpiParser_detectProgramMessageUnit", "unit = header [ws data-list] (; | NL | end); progress >= 1 byte; tokens inside the unit; termination kind", props=["C13", "C05", "C08", "C01", "C02"], timeout=900, cost=20,
     replace=["scpiLex_WhiteSpace", "scpiLex_ProgramHeader", "scpiParser_parseAllProgramData", "scpiLex_NewLine", "scpiLex_Semicolon", "scpiLex_IsEos"]),
 ]
